@@ -95,7 +95,7 @@ def kw(rnd, s):
 # string mode: the same abstract histories over VARCHAR columns.  The integers of the model are the RANKS of the strings below in DuckDB's
 # default (binary = code point) collation, so =, <>, <, <=, >, >=, IN and EQUAL_NULL on the strings are exactly the integer comparisons of the
 # model.  The strings differ only in letter case, a trailing space or an accent.
-SPOOL = {-2: "ABC", -1: "Abc", 0: "abc", 1: "abc ", 2: "abd", 3: "\u00e1bc", 100: "\u00e1bd"}
+SPOOL = {-2: "ABC", -1: "Abc", 0: "abc", 1: "abc 'q'", 2: "abc\\tmp", 3: "\u00e1bc", 100: "\u00e1bd"}   # rank 1 has a space and quotes, rank 2 a backslash
 assert [SPOOL[k] for k in sorted(SPOOL)] == sorted(SPOOL.values())
 SRANK = {v: k for k, v in SPOOL.items()}
 _STRINGS = [False]
@@ -104,7 +104,12 @@ _STRINGS = [False]
 def sval(v):
     if v is None:
         return "NULL"
-    return "'" + SPOOL[v] + "'" if _STRINGS[0] else str(v)
+    return slit(SPOOL[v]) if _STRINGS[0] else str(v)
+
+
+def slit(text):
+    """a Snowflake string literal: backslash and quote escaped"""
+    return "'" + text.replace("\\", "\\\\").replace("'", "''") + "'"
 
 
 def no_arith(x):
@@ -131,11 +136,12 @@ def spred(rnd, p):
     if k == "c":
         op = OPS[p[2]] if p[2] != "ne" else rnd.choice(["<>", "!="])
         if _STRINGS[0] and p[3][0] == "L" and p[3][1] is not None and p[2] in ("eq", "ne") and rnd.random() < 0.5:
-            # equality with a string literal in its other spellings
+            # equality with a string literal in its other spellings (LIKE only where the literal has no escape character)
             a, lit = sexpr(rnd, p[1]), sexpr(rnd, p[3])
+            like_ok = "\\" not in SPOOL[p[3][1]]
             if p[2] == "eq":
-                return rnd.choice([f"{a} {kw(rnd, 'in')} ({lit})", f"{a} {kw(rnd, 'like')} {lit}", f"{a} {kw(rnd, 'in')} ({lit}, {lit})"])
-            return rnd.choice([f"{a} {kw(rnd, 'not in')} ({lit})", f"{a} {kw(rnd, 'not like')} {lit}"])
+                return rnd.choice([f"{a} {kw(rnd, 'in')} ({lit})", f"{a} {kw(rnd, 'in')} ({lit}, {lit})"] + ([f"{a} {kw(rnd, 'like')} {lit}"] if like_ok else []))
+            return rnd.choice([f"{a} {kw(rnd, 'not in')} ({lit})"] + ([f"{a} {kw(rnd, 'not like')} {lit}"] if like_ok else []))
         return f"{sexpr(rnd, p[1])} {op} {sexpr(rnd, p[3])}"
     if k == "n":
         return f"{sexpr(rnd, p[1])} {kw(rnd, 'is null')}"
@@ -560,7 +566,14 @@ def _observe(cur, sql):
     try:
         cur.execute(sql)
     except sferr.ProgrammingError as e:
-        return {"err": [type(e).__name__, e.errno, e.sqlstate], "sqlstate_attr": cur.sqlstate}
+        out = {"err": [type(e).__name__, e.errno, e.sqlstate], "sqlstate_attr": cur.sqlstate, "rc_after": cur.rowcount}
+        try:   # the cursor must not go on showing an earlier statement's result
+            out["fetch_after"] = [list(r) for r in cur.fetchall()]
+        except TypeError as e2:
+            out["fetch_after"] = "no result set" if "No open result set" in str(e2) else f"TypeError {e2}"
+        except Exception as e2:
+            out["fetch_after"] = f"{type(e2).__name__}"
+        return out
     except Exception as e:  # engine-specific exception escaping
         return {"err": [type(e).__module__ + "." + type(e).__name__, getattr(e, "errno", None), getattr(e, "sqlstate", None)]}
     out = {"rows": [list(r) for r in cur.fetchall()], "rc": cur.rowcount}
@@ -621,7 +634,7 @@ def _real_history(conn, conn_b, case):
     tn, cn = _names(case)
     strings = bool(case.get("strings"))
     ctype = "varchar" if strings else "int"
-    lit = (lambda v: "NULL" if v is None else "'" + SPOOL[v] + "'") if strings else sval
+    lit = (lambda v: "NULL" if v is None else slit(SPOOL[v])) if strings else sval
     cur = conn.cursor()
     for sch in ("S1", "S2"):
         for i in range(MAXT):
@@ -735,18 +748,19 @@ def _worker(shard):
 # ------------------------------------------------------------------------------------------------
 
 def _canon_rows(rows):
-    return sorted(rows, key=lambda r: [(v is None, v if v is not None else 0) for v in r])
+    # a string that is not in the pool (a mangled literal) stays as it is and sorts after the ranks
+    return sorted(rows, key=lambda r: [(v is None, isinstance(v, str), 0 if v is None or isinstance(v, str) else v, v if isinstance(v, str) else "") for v in r])
 
 
 def _canon_obs_model(o):
     if isinstance(o, str):
-        return {"err": list(ERRS[o])}
+        return {"err": list(ERRS[o]), "rc_after": None, "fetch_after": "no result set"}
     return {"rows": o["rows"], "rc": o["rc"], "names": o["names"]}
 
 
 def _canon_obs_real(o):
     if "err" in o:
-        return {"err": o["err"]}
+        return {"err": o["err"], "rc_after": o.get("rc_after"), "fetch_after": o.get("fetch_after", "no result set")}
     return {"rows": o["rows"], "rc": o["rc"], "names": o["names"]}
 
 
